@@ -295,20 +295,21 @@ Section Visit.
 Variable lookup : path -> option node.
 Variable ast : N -> option (list decl).
 Variable ffacts : N -> facts.
+Variable fixed : bool.      (* true: the current insert_sub_mod; false: the one before the repair *)
 
-Notation visit_item := (visit_item lookup ast ffacts).
-Notation visit_items := (visit_items lookup ast ffacts).
+Notation visit_item := (visit_item lookup ast ffacts fixed).
+Notation visit_items := (visit_items lookup ast ffacts fixed).
 Notation find_external_module := (find_external_module lookup ast ffacts).
 Notation push_inline := (push_inline_mod_directory lookup).
 Notation parse_file := (parse_file lookup ast).
 
-Definition visit_src (fuel : nat) (src : modsrc) (d' : dctx) (s' : st) : res st :=
+Definition visit_src (fuel : nat) (p : path) (src : modsrc) (d' : dctx) (s' : st) : res st :=
   match src with
   | SClone => Ok s'
-  | SFile id items => match fuel with O => Err OutOfFuel | S f => visit_items f id d' s' items end
+  | SFile id items => match fuel with O => Err OutOfFuel | S f => visit_items f (id, p) d' s' items end
   end.
 Definition visit_ext (fuel : nat) (s' : st) (e : ext) : res st :=
-  visit_src fuel (snd e) (mkD (parent (fst (fst e))) (snd (fst e))) s'.
+  visit_src fuel (fst (fst e)) (snd e) (mkD (parent (fst (fst e))) (snd (fst e))) s'.
 
 Lemma visit_item_eq : forall fuel it cur d s,
   visit_item fuel it cur d s =
@@ -328,7 +329,7 @@ Lemma visit_item_eq : forall fuel it cur d s,
            | (_, Err e) => Err e
            | (s1, Ok None) => Ok s1
            | (s1, Ok (Some k)) =>
-               let s2 := insert_sub_mod cur s1 k in
+               let s2 := insert_sub_mod fixed cur s1 k in
                match k with
                | External e => visit_ext fuel s2 e
                | MultiExternal es => fold_res (visit_ext fuel) es s2
@@ -405,16 +406,22 @@ Section Preserve.
   Variable I : list (path * minfo) -> Prop.
   Hypothesis Hins : forall fm p m, I fm -> I (fm_or_insert fm p m).
 
-  Lemma insert_exts_pres : forall cur es s, I (fmap s) -> I (fmap (fold_left (insert_ext cur) es s)).
+  Lemma insert_ext_pres : forall cur s e, I (fmap s) -> I (fmap (insert_ext fixed cur s e)).
   Proof.
-    intros cur es. induction es as [|e es IH]; intros s H; cbn [fold_left]; [exact H|].
-    apply IH. unfold insert_ext. cbn [fmap]. apply Hins. exact H.
+    intros cur s e H. unfold insert_ext. destruct (negb fixed || span_in_file cur e); [|exact H].
+    cbn [fmap]. apply Hins. exact H.
   Qed.
 
-  Lemma insert_sub_mod_pres : forall cur s k, I (fmap s) -> I (fmap (insert_sub_mod cur s k)).
+  Lemma insert_exts_pres : forall cur es s, I (fmap s) -> I (fmap (fold_left (insert_ext fixed cur) es s)).
+  Proof.
+    intros cur es. induction es as [|e es IH]; intros s H; cbn [fold_left]; [exact H|].
+    apply IH. apply insert_ext_pres. exact H.
+  Qed.
+
+  Lemma insert_sub_mod_pres : forall cur s k, I (fmap s) -> I (fmap (insert_sub_mod fixed cur s k)).
   Proof.
     intros cur s k H. destruct k as [e|es|]; cbn [insert_sub_mod].
-    - unfold insert_ext. cbn [fmap]. apply Hins. exact H.
+    - apply insert_ext_pres. exact H.
     - apply insert_exts_pres. exact H.
     - exact H.
   Qed.
@@ -428,7 +435,7 @@ Section Preserve.
       + destruct (skip a); [inversion H; subst; exact Hs|].
         destruct (find_external_module s d n a) as [s1 r] eqn:E. apply fem_fmap in E.
         destruct r as [[k|]|e]; [|inversion H; subst; rewrite E; exact Hs|discriminate].
-        assert (H2 : I (fmap (insert_sub_mod cur s1 k))) by (apply insert_sub_mod_pres; rewrite E; exact Hs).
+        assert (H2 : I (fmap (insert_sub_mod fixed cur s1 k))) by (apply insert_sub_mod_pres; rewrite E; exact Hs).
         cbn zeta in H. destruct k as [e|es|].
         * unfold visit_ext, visit_src in H. destruct (snd e); [discriminate|inversion H; subst; exact H2].
         * revert H. apply fold_res_inv with (I := fun t => I (fmap t)); [|exact H2].
@@ -450,7 +457,7 @@ Section Preserve.
       + destruct (skip a); [inversion H; subst; exact Hs|].
         destruct (find_external_module s d n a) as [s1 r] eqn:E. apply fem_fmap in E.
         destruct r as [[k|]|e]; [|inversion H; subst; rewrite E; exact Hs|discriminate].
-        assert (H2 : I (fmap (insert_sub_mod cur s1 k))) by (apply insert_sub_mod_pres; rewrite E; exact Hs).
+        assert (H2 : I (fmap (insert_sub_mod fixed cur s1 k))) by (apply insert_sub_mod_pres; rewrite E; exact Hs).
         assert (Hext : forall e t t', I (fmap t) -> visit_ext (S f) t e = Ok t' -> I (fmap t')).
         { intros e t t' Ht He. unfold visit_ext, visit_src in He.
           destruct (snd e) as [id items|]; [|inversion He; subst; exact Ht].
@@ -580,13 +587,13 @@ Lemma visit_decl_uniform : forall fuel n a cur d s,
   if skip a then Ok s
   else match find_external_module s d n a with
        | (_, Err e) => Err e
-       | (s1, Ok ok) => fold_res (visit_ext fuel) (exts_of ok) (fold_left (insert_ext cur) (exts_of ok) s1)
+       | (s1, Ok ok) => fold_res (visit_ext fuel) (exts_of ok) (fold_left (insert_ext fixed cur) (exts_of ok) s1)
        end.
 Proof.
   intros fuel n a cur d s. rewrite visit_item_eq. destruct (skip a); [reflexivity|].
   destruct (find_external_module s d n a) as [s1 [[[e|es|]|]|e]]; cbn [exts_of fold_left fold_res insert_sub_mod];
     try reflexivity.
-  destruct (visit_ext fuel (insert_ext cur s1 e) e); reflexivity.
+  destruct (visit_ext fuel (insert_ext fixed cur s1 e) e); reflexivity.
 Qed.
 
 
@@ -771,31 +778,32 @@ Proof.
 Qed.
 
 (* insertion of the entries in the file map *)
-Definition ins_fm (cur : N) (fm : list (path * minfo)) (es : list ext) : list (path * minfo) :=
-  fold_left (fun fm e => fm_or_insert fm (fst (fst e)) (minfo_of cur (snd e))) es fm.
+Definition ins_fm (cur : curfile) (fm : list (path * minfo)) (es : list ext) : list (path * minfo) :=
+  fold_left (fun fm e => if negb fixed || span_in_file cur e
+                         then fm_or_insert fm (fst (fst e)) (minfo_of cur (snd e)) else fm) es fm.
 
 Lemma insert_exts_state : forall cur es s,
-  fold_left (insert_ext cur) es s = mkSt (parsed s) (ins_fm cur (fmap s) es) (sticky s).
+  fold_left (insert_ext fixed cur) es s = mkSt (parsed s) (ins_fm cur (fmap s) es) (sticky s).
 Proof.
   intros cur es. induction es as [|e es IH]; intros s; cbn [fold_left ins_fm].
   - destruct s; reflexivity.
-  - rewrite IH. unfold insert_ext. cbn [parsed fmap sticky]. reflexivity.
+  - rewrite IH. unfold insert_ext. destruct (negb fixed || span_in_file cur e); cbn [parsed fmap sticky]; reflexivity.
 Qed.
 
 Lemma FmI_insert : forall T P0 es P1, ExtsOK T P0 es P1 ->
   forall cur fm, FmI P0 fm -> FmI P1 (ins_fm cur fm es).
 Proof.
   intros T P0 es P1 H. induction H as [P|P q o id items es P' k H1 H2 H3 H4 H5 H6 H7 IH|P q o es P' H1 H2 H3 IH];
-    intros cur fm [F1 F2]; cbn [ins_fm fold_left fst snd minfo_of].
+    intros cur fm [F1 F2]; cbn [ins_fm fold_left fst snd minfo_of span_in_file].
   - split; assumption.
-  - apply IH. split.
+  - rewrite orb_true_r. apply IH. split.
     + intros p m Hin. apply fm_or_insert_In in Hin as [Hin|(-> & -> & _)].
       * destruct (F1 p m Hin) as [Ha Hb]. split; [right; exact Ha | exact Hb].
       * split; [left; reflexivity|]. right. exists id. split; [reflexivity|]. split; assumption.
     + intros p id' [E|Hp] Hr Hl Hs; apply fm_or_insert_keys.
       * right. symmetry. exact E.
       * left. eapply F2; eassumption.
-  - apply IH. split.
+  - apply IH. destruct (negb fixed || path_eqb (snd cur) q); [|split; assumption]. split.
     + intros p m Hin. apply fm_or_insert_In in Hin as [Hin|(-> & -> & Hn)]; [apply F1; exact Hin|].
       split; [exact H1|]. destruct H2 as [E|(id & Hl & Hs)]; [left; exact E|].
       destruct (path_eq_dec q root) as [E|Hr]; [left; exact E|]. exfalso. apply Hn. eapply F2; eassumption.
@@ -1170,8 +1178,8 @@ Proof.
         cbn [file_step]. rewrite Hsk. cbn [andb]. apply in_flat_map. exists (q, k). split; [exact HTk|].
         change k with (snd (q, k)) at 1. eapply enter_intro; cbn [fst]; eassumption. }
       change (pend ((q, o, SFile id items) :: es) ++ A) with (q :: pend es ++ A) in HI.
-      pose proof (HIH f eq_refl items id (mkD (parent q) o) s (q :: pend es ++ A) k HVk Hck HI) as Hit.
-      destruct (visit_items f id (mkD (parent q) o) s items) as [s3|e]; [|exact Hit].
+      pose proof (HIH f eq_refl items (id, q) (mkD (parent q) o) s (q :: pend es ++ A) k HVk Hck HI) as Hit.
+      destruct (visit_items f (id, q) (mkD (parent q) o) s items) as [s3|e]; [|exact Hit].
       destruct Hit as [[HI3 Hi3] Hcov].
       assert (HI3' : Inv s3 (pend es ++ A)).
       { destruct HI3 as [I1 I2 I3 I4 I5 I6]. constructor; try assumption.
@@ -1454,15 +1462,15 @@ Qed.
 (* the recursive run *)
 Lemma run_spec : forall fuel rid items d0,
   lookup root = Some (File rid) -> ast rid = Some items -> corr d0 (root_ctx root) ->
-  match visit_items fuel rid d0 (mkSt [root] [] false) items with
+  match visit_items fuel (rid, root) d0 (mkSt [root] [] false) items with
   | Ok s => Inv s []
   | Err e => Bad e
   end.
 Proof.
   intros fuel rid items d0 Hl Ha Hc.
-  pose proof (items_spec_all fuel items rid d0 (mkSt [root] [] false) [root] (root_ctx root)
+  pose proof (items_spec_all fuel items (rid, root) d0 (mkSt [root] [] false) [root] (root_ctx root)
                 (V_root _ _ _ _ _ _ rid items Hl Ha) Hc (init_inv rid items Hl Ha)) as H.
-  destruct (visit_items fuel rid d0 (mkSt [root] [] false) items) as [s|e]; [|exact H].
+  destruct (visit_items fuel (rid, root) d0 (mkSt [root] [] false) items) as [s|e]; [|exact H].
   destruct H as [[HI _] Hcov]. eapply close_root; eassumption.
 Qed.
 
@@ -1513,11 +1521,12 @@ End Visit.
 (* F. the property theorems *)
 
 Section Top.
+Variable fixed : bool.
 Variable lookup : path -> option node.
 Variable ast : N -> option (list decl).
 Variable ffacts : N -> facts.
 
-Notation resolve_fuel := (resolve_fuel lookup ast ffacts).
+Notation resolve_fuel := (resolve_fuel_gen lookup ast ffacts fixed).
 Notation Reach := (Reach lookup ast ffacts).
 Notation Excluded := (Excluded lookup ast ffacts).
 Notation RU := (ReachG lookup ast ffacts true true).
@@ -1577,7 +1586,7 @@ Lemma resolve_sound_complete_lemma : forall fuel cfg root S,
   Tame lookup ast ffacts root -> resolve_fuel fuel cfg root = Ok S ->
   forall p, In p S <-> (Reach root p /\ ~ Excluded cfg root p).
 Proof.
-  intros fuel cfg root S HT H p. unfold Model.resolve_fuel in H.
+  intros fuel cfg root S HT H p. unfold Model.resolve_fuel_gen in H.
   destruct (skip_children cfg && negb (input_is_stdin cfg) && path_ignored lookup ffacts root) eqn:Eearly.
   { inversion H; subst. split; [intros []|]. intros [_ Hne]. apply Hne.
     apply andb_true_iff in Eearly as [E1 E3]. apply andb_true_iff in E1 as [E1 E2]. apply negb_true_iff in E2.
@@ -1592,8 +1601,8 @@ Proof.
     apply andb_true_iff in Erec as [E1 E2]. apply negb_true_iff in E1, E2. rewrite E1 in H.
     assert (Hc : corr (mkD (parent root) (to_directory_ownership lookup root)) (root_ctx root)).
     { split; [reflexivity|]. cbn [down]. rewrite (tame_root _ _ _ _ HT). reflexivity. }
-    pose proof (run_spec lookup ast ffacts root HT fuel rid items _ Hl Ha Hc) as Hrun.
-    destruct (visit_items lookup ast ffacts fuel rid
+    pose proof (run_spec lookup ast ffacts fixed root HT fuel rid items _ Hl Ha Hc) as Hrun.
+    destruct (visit_items lookup ast ffacts fixed fuel (rid, root)
                 (mkD (parent root) (to_directory_ownership lookup root)) (mkSt [root] [] false) items) as [s|e];
       [|discriminate].
     inversion H; subst S. clear H. change (map fst ?l) with (keys l). rewrite final_In.
@@ -1656,7 +1665,7 @@ Lemma resolve_err_sound : forall fuel cfg root e,
   Tame lookup ast ffacts root -> resolve_fuel fuel cfg root = Err e ->
   e = OutOfFuel \/ ErrWitness lookup ast ffacts root e.
 Proof.
-  intros fuel cfg root e HT H. unfold Model.resolve_fuel in H.
+  intros fuel cfg root e HT H. unfold Model.resolve_fuel_gen in H.
   destruct (skip_children cfg && negb (input_is_stdin cfg) && path_ignored lookup ffacts root); [discriminate|].
   destruct (lookup root) as [[rid|]|] eqn:Hl.
   - destruct (ast rid) as [items|] eqn:Ha.
@@ -1664,8 +1673,8 @@ Proof.
       apply andb_true_iff in Erec as [E1 E2]. apply negb_true_iff in E1, E2. rewrite E1 in H.
       assert (Hc : corr (mkD (parent root) (to_directory_ownership lookup root)) (root_ctx root)).
       { split; [reflexivity|]. cbn [down]. rewrite (tame_root _ _ _ _ HT). reflexivity. }
-      pose proof (run_spec lookup ast ffacts root HT fuel rid items _ Hl Ha Hc) as Hrun.
-      destruct (visit_items lookup ast ffacts fuel rid
+      pose proof (run_spec lookup ast ffacts fixed root HT fuel rid items _ Hl Ha Hc) as Hrun.
+      destruct (visit_items lookup ast ffacts fixed fuel (rid, root)
                   (mkD (parent root) (to_directory_ownership lookup root)) (mkSt [root] [] false) items) as [s|e'];
         [discriminate|]. inversion H; subst e'. exact Hrun.
     + inversion H; subst. right. left. unfold file_err. rewrite Hl. split; [exact Ha | reflexivity].
@@ -1679,13 +1688,13 @@ Lemma resolve_err_complete : forall fuel cfg root,
 Proof.
   intros fuel cfg root HT Hsc Hst (e & HW).
   destruct (resolve_fuel fuel cfg root) as [S|e'] eqn:H; [|exists e'; reflexivity]. exfalso.
-  unfold Model.resolve_fuel in H. rewrite Hsc, Hst in H. cbn [andb negb] in H.
+  unfold Model.resolve_fuel_gen in H. rewrite Hsc, Hst in H. cbn [andb negb] in H.
   destruct (lookup root) as [[rid|]|] eqn:Hl; try discriminate.
   destruct (ast rid) as [items|] eqn:Ha; try discriminate.
   assert (Hc : corr (mkD (parent root) (to_directory_ownership lookup root)) (root_ctx root)).
   { split; [reflexivity|]. cbn [down]. rewrite (tame_root _ _ _ _ HT). reflexivity. }
-  pose proof (run_spec lookup ast ffacts root HT fuel rid items _ Hl Ha Hc) as Hrun.
-  destruct (visit_items lookup ast ffacts fuel rid
+  pose proof (run_spec lookup ast ffacts fixed root HT fuel rid items _ Hl Ha Hc) as Hrun.
+  destruct (visit_items lookup ast ffacts fixed fuel (rid, root)
               (mkD (parent root) (to_directory_ownership lookup root)) (mkSt [root] [] false) items) as [s|e'];
     [|discriminate].
   destruct HW as [HW|(c & ds & n & a & HV & Hin & Hsk & HD)].
@@ -1699,7 +1708,7 @@ Qed.
 Lemma resolve_keys_nodup : forall fuel cfg root S, resolve_fuel fuel cfg root = Ok S ->
   NoDup S /\ StronglySorted plt S.
 Proof.
-  intros fuel cfg root S H. unfold Model.resolve_fuel in H.
+  intros fuel cfg root S H. unfold Model.resolve_fuel_gen in H.
   destruct (skip_children cfg && negb (input_is_stdin cfg) && path_ignored lookup ffacts root).
   { inversion H; subst. split; constructor. }
   destruct (lookup root) as [[rid|]|]; try discriminate.
@@ -1708,7 +1717,7 @@ Proof.
   inversion H; subst S. clear H.
   assert (Hn : NoDup (keys (fmap s))).
   { destruct (negb (input_is_stdin cfg) && negb (skip_children cfg)).
-    - eapply (visit_items_pres lookup ast ffacts (fun fm => NoDup (keys fm))); [| |exact E].
+    - eapply (visit_items_pres lookup ast ffacts fixed (fun fm => NoDup (keys fm))); [| |exact E].
       + intros fm p m Hfm. apply fm_or_insert_nodup. exact Hfm.
       + constructor.
     - inversion E; subst. constructor. }
@@ -1718,7 +1727,7 @@ Qed.
 Lemma skip_children_only_root_lemma : forall fuel cfg root S,
   skip_children cfg = true -> resolve_fuel fuel cfg root = Ok S -> forall p, In p S -> p = root.
 Proof.
-  intros fuel cfg root S Hsc H p Hp. unfold Model.resolve_fuel in H. rewrite Hsc in H.
+  intros fuel cfg root S Hsc H p Hp. unfold Model.resolve_fuel_gen in H. rewrite Hsc in H.
   destruct (true && negb (input_is_stdin cfg) && path_ignored lookup ffacts root).
   { inversion H; subst. destruct Hp. }
   destruct (lookup root) as [[rid|]|]; try discriminate.
@@ -1730,7 +1739,7 @@ Qed.
 Lemma stdin_only_root_lemma : forall fuel cfg root S,
   input_is_stdin cfg = true -> resolve_fuel fuel cfg root = Ok S -> S = [root].
 Proof.
-  intros fuel cfg root S Hst H. unfold Model.resolve_fuel in H. rewrite Hst in H.
+  intros fuel cfg root S Hst H. unfold Model.resolve_fuel_gen in H. rewrite Hst in H.
   cbn [negb andb] in H. rewrite andb_false_r in H. cbn [andb] in H.
   destruct (lookup root) as [[rid|]|]; try discriminate.
   destruct (ast rid) as [items|]; try discriminate.
@@ -1747,11 +1756,12 @@ Section Fuel.
 Variable lookup : path -> option node.
 Variable ast : N -> option (list decl).
 Variable ffacts : N -> facts.
+Variable fixed : bool.
 Variable files : list path.
 Hypothesis Hfin : forall p id, lookup p = Some (File id) -> In p files.
 
-Notation visit_item := (visit_item lookup ast ffacts).
-Notation visit_items := (visit_items lookup ast ffacts).
+Notation visit_item := (visit_item lookup ast ffacts fixed).
+Notation visit_items := (visit_items lookup ast ffacts fixed).
 Notation find_external_module := (find_external_module lookup ast ffacts).
 Notation parse_file := (parse_file lookup ast).
 
@@ -1896,9 +1906,10 @@ Proof.
     split; [exact H3 | eapply incl_tran; eassumption].
 Qed.
 
-Lemma insert_exts_parsed : forall cur es s, parsed (fold_left (insert_ext cur) es s) = parsed s.
+Lemma insert_exts_parsed : forall cur es s, parsed (fold_left (insert_ext fixed cur) es s) = parsed s.
 Proof.
-  intros cur es. induction es as [|e es IH]; intros s; cbn [fold_left]; [reflexivity|]. rewrite IH. reflexivity.
+  intros cur es. induction es as [|e es IH]; intros s; cbn [fold_left]; [reflexivity|]. rewrite IH.
+  unfold insert_ext. destruct (negb fixed || span_in_file cur e); reflexivity.
 Qed.
 
 Definition items_noof (f : nat) : Prop :=
@@ -1908,11 +1919,11 @@ Lemma exts_noof : forall fuel P0 P1,
   (forall f, fuel = S f -> items_noof f) ->
   NoDup P0 -> incl P0 P1 -> (length files < fuel + length P0)%nat ->
   forall es, Forall (NewFile P0 P1) es ->
-  forall t, FI t -> incl P1 (parsed t) -> NoOOF t (fold_res (visit_ext lookup ast ffacts fuel) es t).
+  forall t, FI t -> incl P1 (parsed t) -> NoOOF t (fold_res (visit_ext lookup ast ffacts fixed fuel) es t).
 Proof.
   intros fuel P0 P1 HIH Hn0 H01 Hlen es HF. induction HF as [|e es He HF IH]; intros t Ht Hit; cbn [fold_res].
   - split; [exact Ht | apply incl_refl].
-  - assert (Hx : NoOOF t (visit_ext lookup ast ffacts fuel t e)).
+  - assert (Hx : NoOOF t (visit_ext lookup ast ffacts fixed fuel t e)).
     { unfold visit_ext, visit_src, NewFile in *. destruct (snd e) as [id items|]; [|split; [exact Ht | apply incl_refl]].
       destruct He as [Hq0 Hq1]. destruct fuel as [|f].
       - exfalso. destruct Ht as [Hn Hi].
@@ -1926,9 +1937,9 @@ Proof.
         { intros x [<-|Hx]; [apply Hit, Hq1 | apply Hit, H01, Hx]. }
         assert (Hnd : NoDup (fst (fst e) :: P0)) by (constructor; assumption).
         pose proof (NoDup_incl_length Hnd Hc) as L1. cbn [length] in L1. lia. }
-    destruct (visit_ext lookup ast ffacts fuel t e) as [t1|e']; [|exact Hx]. destruct Hx as [H1 H2].
+    destruct (visit_ext lookup ast ffacts fixed fuel t e) as [t1|e']; [|exact Hx]. destruct Hx as [H1 H2].
     specialize (IH t1 H1 (incl_tran Hit H2)).
-    destruct (fold_res (visit_ext lookup ast ffacts fuel) es t1) as [t2|e']; [|exact IH].
+    destruct (fold_res (visit_ext lookup ast ffacts fixed fuel) es t1) as [t2|e']; [|exact IH].
     destruct IH as [H3 H4]. split; [exact H3 | eapply incl_tran; eassumption].
 Qed.
 
@@ -1940,12 +1951,12 @@ Proof.
   destruct (skip a); [split; [exact Hs | apply incl_refl]|].
   destruct (find_external_module s d n a) as [s1 r] eqn:E. apply fem_grow in E as ([G1 G2] & Hne & HF).
   destruct r as [ok|e]; [|cbn [NoOOF]; intros ->; apply Hne; reflexivity]. specialize (HF ok eq_refl).
-  set (s2 := fold_left (insert_ext cur) (exts_of ok) s1).
+  set (s2 := fold_left (insert_ext fixed cur) (exts_of ok) s1).
   assert (Hp2 : parsed s2 = parsed s1) by apply insert_exts_parsed.
   assert (Hs2 : FI s2) by (unfold FI; rewrite Hp2; apply G1, Hs).
   pose proof (exts_noof fuel (parsed s) (parsed s1) HIH (proj1 Hs) G2 Hf (exts_of ok) HF s2 Hs2) as Hgoal.
   rewrite Hp2 in Hgoal. specialize (Hgoal (incl_refl _)).
-  destruct (fold_res (visit_ext lookup ast ffacts fuel) (exts_of ok) s2) as [s3|e]; [|exact Hgoal].
+  destruct (fold_res (visit_ext lookup ast ffacts fixed fuel) (exts_of ok) s2) as [s3|e]; [|exact Hgoal].
   destruct Hgoal as [H3 H4]. split; [exact H3|]. rewrite Hp2 in H4. eapply incl_tran; eassumption.
 Qed.
 
@@ -2030,9 +2041,9 @@ Proof.
 Qed.
 
 Lemma resolve_fuel_enough_lemma : forall fuel cfg root,
-  (length files <= fuel)%nat -> resolve_fuel lookup ast ffacts fuel cfg root <> Err OutOfFuel.
+  (length files <= fuel)%nat -> resolve_fuel_gen lookup ast ffacts fixed fuel cfg root <> Err OutOfFuel.
 Proof.
-  intros fuel cfg root Hlen. unfold resolve_fuel.
+  intros fuel cfg root Hlen. unfold resolve_fuel_gen.
   destruct (skip_children cfg && negb (input_is_stdin cfg) && path_ignored lookup ffacts root); [discriminate|].
   destruct (lookup root) as [[rid|]|] eqn:Hl; try discriminate.
   destruct (ast rid) as [items|]; try discriminate.
@@ -2040,10 +2051,10 @@ Proof.
   assert (Hs : FI (mkSt [root] [] false)).
   { split; cbn [parsed]; [constructor; [intros [] | constructor]|]. intros x [<-|[]]. eapply Hfin. exact Hl. }
   assert (Hf : fuel_ok fuel (mkSt [root] [] false)) by (unfold fuel_ok; cbn [parsed length]; lia).
-  pose proof (items_noof_all fuel items rid
+  pose proof (items_noof_all fuel items (rid, root)
                 (mkD (parent root) (if input_is_stdin cfg then Unowned else to_directory_ownership lookup root))
                 _ Hs Hf) as H.
-  destruct (visit_items fuel rid _ (mkSt [root] [] false) items) as [s|e]; [discriminate|].
+  destruct (visit_items fuel (rid, root) _ (mkSt [root] [] false) items) as [s|e]; [discriminate|].
   cbn [NoOOF] in H. intros E. inversion E; subst. apply H. reflexivity.
 Qed.
 
@@ -2253,6 +2264,8 @@ Definition w_ast (w : world) : N -> option (list decl) := ast_of (w_asts w).
 Definition w_ff (w : world) : N -> facts := facts_of (w_facts w).
 Definition w_resolve (w : world) (cfg : config) : res (list path) :=
   resolve_fuel (w_lookup w) (w_ast w) (w_ff w) 20 cfg (w_root w).
+Definition w_resolve_pre (w : world) (cfg : config) : res (list path) :=
+  resolve_fuel_pre (w_lookup w) (w_ast w) (w_ff w) 20 cfg (w_root w).
 Definition w_Reach (w : world) := Reach (w_lookup w) (w_ast w) (w_ff w) (w_root w).
 Definition w_Excluded (w : world) (cfg : config) := Excluded (w_lookup w) (w_ast w) (w_ff w) cfg (w_root w).
 Definition w_nodes (w : world) (fb pr : bool) : list lnode :=
@@ -2287,14 +2300,15 @@ Proof.
 Qed.
 
 (* W2: two declarations with cfg_attr(.., path = "n005.rs"), n005.rs starts with #![rustfmt::skip]:
-   n005.rs is handed to the formatter (with the Module of the second declaration) *)
+   BEFORE the repair of insert_sub_mod n005.rs was handed to the formatter (with the Module of the second
+   declaration, i.e. the root's text was written to it); the repaired code leaves it alone *)
 Definition W2 : world := mkWorld
   [([CRs 9], 0); ([CRs 0], 1); ([CRs 1], 2); ([CRs 5], 3)] []
   [(0, Some [ModDecl 0 (Acfg [[CRs 5]]); ModDecl 1 (Acfg [[CRs 5]])])]
   [(3, mkFacts true false false)] [CRs 9].
 
 Lemma w2_skipped_file_formatted : exists S p id,
-  w_resolve W2 cfg0 = Ok S /\ In p S /\ w_lookup W2 p = Some (File id) /\ inner_skip (w_ff W2 id) = true /\
+  w_resolve_pre W2 cfg0 = Ok S /\ In p S /\ w_lookup W2 p = Some (File id) /\ inner_skip (w_ff W2 id) = true /\
   w_Excluded W2 cfg0 p.
 Proof.
   exists [[CRs 0]; [CRs 1]; [CRs 5]; [CRs 9]], [CRs 5], 3.
@@ -2302,6 +2316,9 @@ Proof.
   split; [vm_compute; reflexivity|]. split; [vm_compute; reflexivity|].
   right. left. split; [reflexivity|]. exists 3. split; [vm_compute; reflexivity|]. left. vm_compute. reflexivity.
 Qed.
+
+Lemma w2_repaired : w_resolve W2 cfg0 = Ok [[CRs 0]; [CRs 1]; [CRs 9]].
+Proof. vm_compute. reflexivity. Qed.
 
 (* W3: n000.rs = `mod n002 { mod n001 { mod n003; } }`, only n000/n001/n003.rs exists: the language says
    missing (n000/n002/n001/n003.rs), the exists() heuristic of push_inline_mod_directory picks a decoy *)
@@ -2460,7 +2477,7 @@ Qed.
 
 Lemma w12_diverges : forall fuel k s cur,
   sticky s = false -> (forall j, (k < j)%nat -> ~ In (rep12 j ++ [CRs 0]) (parsed s)) ->
-  visit_item (w_lookup W12) (w_ast W12) (w_ff W12) fuel it12 cur (mkD (rep12 k) (Owned None)) s = Err OutOfFuel.
+  visit_item (w_lookup W12) (w_ast W12) (w_ff W12) true fuel it12 cur (mkD (rep12 k) (Owned None)) s = Err OutOfFuel.
 Proof.
   induction fuel as [|f IH]; intros k s cur Hst Hnp.
   - set (p := rep12 (S k) ++ [CRs 0]).
@@ -2498,7 +2515,7 @@ Qed.
 Lemma w12_no_fuel_suffices : forall fuel,
   resolve_fuel (w_lookup W12) (w_ast W12) (w_ff W12) fuel cfg0 (w_root W12) = Err OutOfFuel.
 Proof.
-  intros fuel. unfold resolve_fuel.
+  intros fuel. unfold resolve_fuel, resolve_fuel_gen.
   change (skip_children cfg0 && negb (input_is_stdin cfg0) && path_ignored (w_lookup W12) (w_ff W12) (w_root W12)) with false.
   change (w_lookup W12 (w_root W12)) with (Some (File 0)). cbv iota beta.
   change (w_ast W12 0) with (Some [it12]). cbv iota beta.
@@ -2506,11 +2523,11 @@ Proof.
   change (input_is_stdin cfg0) with false. cbv iota.
   change (to_directory_ownership (w_lookup W12) (w_root W12)) with Unowned.
   change (parent (w_root W12)) with (rep12 0). unfold visit_items. cbn [fold_res].
-  assert (H : visit_item (w_lookup W12) (w_ast W12) (w_ff W12) fuel it12 0 (mkD (rep12 0) Unowned)
+  assert (H : visit_item (w_lookup W12) (w_ast W12) (w_ff W12) true fuel it12 (0, w_root W12) (mkD (rep12 0) Unowned)
                 (mkSt [w_root W12] [] false) = Err OutOfFuel).
   { (* Unowned and Owned None behave alike on a #[path] declaration *)
-    assert (G : forall fuel' s, visit_item (w_lookup W12) (w_ast W12) (w_ff W12) fuel' it12 0 (mkD (rep12 0) Unowned) s
-                = visit_item (w_lookup W12) (w_ast W12) (w_ff W12) fuel' it12 0 (mkD (rep12 0) (Owned None)) s).
+    assert (G : forall fuel' s, visit_item (w_lookup W12) (w_ast W12) (w_ff W12) true fuel' it12 (0, w_root W12) (mkD (rep12 0) Unowned) s
+                = visit_item (w_lookup W12) (w_ast W12) (w_ff W12) true fuel' it12 (0, w_root W12) (mkD (rep12 0) (Owned None)) s).
     { intros fuel' s. unfold it12. rewrite !visit_decl_uniform. reflexivity. }
     rewrite G. apply w12_diverges; [reflexivity|].
     intros j Hj [E|[]]. apply (f_equal (@length comp)) in E. rewrite app_length, rep12_length in E. cbn in E. lia. }
@@ -2536,10 +2553,10 @@ Lemma resolve_error_iff_lemma : forall lookup ast ffacts fuel cfg root,
 Proof.
   intros lookup ast ffacts fuel cfg root HT Hsc Hst Hno.
   assert (Hs : forall e, resolve_fuel lookup ast ffacts fuel cfg root = Err e -> ErrWitness lookup ast ffacts root e).
-  { intros e He. destruct (resolve_err_sound lookup ast ffacts fuel cfg root e HT He) as [->|Hw]; [contradiction | exact Hw]. }
+  { intros e He. destruct (resolve_err_sound true lookup ast ffacts fuel cfg root e HT He) as [->|Hw]; [contradiction | exact Hw]. }
   split; [|exact Hs]. split.
   - intros (e & He). exists e. apply Hs, He.
-  - apply resolve_err_complete; assumption.
+  - apply (resolve_err_complete true); assumption.
 Qed.
 
 (* ================================================================================================ *)
@@ -2551,7 +2568,7 @@ Lemma formatted_once_refuted_lemma : exists (w : world) S p q id,
 Proof. exists W1. exact w1_formatted_twice. Qed.
 
 Lemma skipped_file_excluded_refuted_lemma : exists (w : world) S p id,
-  w_resolve w cfg0 = Ok S /\ In p S /\ w_lookup w p = Some (File id) /\ inner_skip (w_ff w id) = true /\
+  w_resolve_pre w cfg0 = Ok S /\ In p S /\ w_lookup w p = Some (File id) /\ inner_skip (w_ff w id) = true /\
   w_Excluded w cfg0 p.
 Proof. exists W2. exact w2_skipped_file_formatted. Qed.
 
@@ -2601,7 +2618,18 @@ Proof. exists W11. exact w11_fallback_fires. Qed.
 
 Lemma resolve_nodup_lemma : forall lookup ast ffacts fuel cfg root S,
   resolve_fuel lookup ast ffacts fuel cfg root = Ok S -> NoDup S.
-Proof. intros lookup ast ffacts fuel cfg root S H. exact (proj1 (resolve_keys_nodup lookup ast ffacts fuel cfg root S H)). Qed.
+Proof. intros lookup ast ffacts fuel cfg root S H. exact (proj1 (resolve_keys_nodup true lookup ast ffacts fuel cfg root S H)). Qed.
 Lemma resolve_sorted_lemma : forall lookup ast ffacts fuel cfg root S,
   resolve_fuel lookup ast ffacts fuel cfg root = Ok S -> StronglySorted (fun p q => path_ltb p q = true) S.
-Proof. intros lookup ast ffacts fuel cfg root S H. exact (proj2 (resolve_keys_nodup lookup ast ffacts fuel cfg root S H)). Qed.
+Proof. intros lookup ast ffacts fuel cfg root S H. exact (proj2 (resolve_keys_nodup true lookup ast ffacts fuel cfg root S H)). Qed.
+
+Lemma skipped_file_excluded_repaired_lemma : exists (w : world) S' S p,
+  w_resolve_pre w cfg0 = Ok S' /\ In p S' /\ w_Excluded w cfg0 p /\
+  w_resolve w cfg0 = Ok S /\ ~ In p S /\ (forall q, In q S' -> q <> p -> In q S).
+Proof.
+  exists W2, [[CRs 0]; [CRs 1]; [CRs 5]; [CRs 9]], [[CRs 0]; [CRs 1]; [CRs 9]], [CRs 5].
+  split; [vm_compute; reflexivity|]. split; [right; right; left; reflexivity|]. split.
+  { right. left. split; [reflexivity|]. exists 3. split; [vm_compute; reflexivity|]. left. vm_compute. reflexivity. }
+  split; [exact w2_repaired|]. split; [not_in|].
+  intros q [<-|[<-|[<-|[<-|[]]]]] Hne; cbn; auto; exfalso; apply Hne; reflexivity.
+Qed.
